@@ -34,6 +34,7 @@ def plan(tier, seed):
     specs += [{'kind': 'arrays', 'part': i, 'parts': 4, 'word': 2 + i % 3, 'seed': seed} for i in range(4)]
     specs += [{'kind': 'collisions', 'word': w} for w in (2, 3)]
     specs += [{'kind': 'rawfile', 'word': w} for w in (2, 3)]
+    specs.append({'kind': 'fresh'})
     n, per = (4, 60) if tier == 'quick' else (16, 250)
     for j in range(n):
         specs.append({'kind': 'random', 'seed': seed * 1000 + j, 'count': per})
@@ -204,6 +205,20 @@ def run_shard(spec):
                 run_expect(res, src, [], word, bytes(exp), f'constant {el} arrays of length {n}', [runner.case_id('array', el, n, word, w) for w in 'abcd'])
         res['exhaustive'] = True
         res['samples'].append({'arrays': 'const/mutable x global/local arrays of int, byte, bool, string, lengths 0..40'})
+    elif k == 'fresh':
+        # an array literal written with constants denotes those values every time it is evaluated, also when it initialises
+        # a mutable array that was written to after an earlier evaluation (expected output from the reference interpreter)
+        from ..gen import idioms
+        from ..model import ast as A
+        for tag, prog in idioms.fresh_literal_programs():
+            for args in idioms.FRESH_ARGS:
+                for word in (2, 3):
+                    ref, why = diff.model_run(prog, args, word)
+                    if ref is None:
+                        res['inconclusive'].append(f'{tag}: no model run: {why}')
+                        continue
+                    run_expect(res, A.render(prog), args, word, ref.out, tag, [runner.case_id(tag, tuple(args), word)])
+        res['exhaustive'] = True
     elif k == 'rawfile':
         # every character written RAW (unescaped) inside string literals, char literals and comments of a source FILE, read
         # through SourceCode.from_file as the command-line tool does: control characters, the Unicode line and paragraph
